@@ -6,8 +6,10 @@
 package imapclient
 
 import (
+	"bytes"
 	"crypto/tls"
 	"io"
+	"net"
 
 	"github.com/emersion/go-imap/v2"
 	"github.com/emersion/go-imap/v2/internal/imapwire"
@@ -67,6 +69,11 @@ func mirrorOK(c *Client) bool {
 //@   panics assumed-unreachable artefact of go/ssa's lowering of a blocking select without default
 
 //@ func (c *Client) upgradeStartTLS(tlsConfig *tls.Config)
+//@   props C17:post,pre@call,callsite
+//@   callsite tls.Client requires __called("CopyN")
+//@   callsite io.MultiReader(readers []io.Reader) requires len(readers) == 2 && isBytesBuffer(readers[0])
+//@   callsite Reader.Reset requires __called("Client")
+//@   ensures[C17] __called("Reader.Reset") && __called("Client")
 //@   panics assumed-unreachable io.CopyN of exactly Buffered() bytes from a bufio.Reader into a bytes.Buffer cannot fail (stdlib contract)
 
 //@ func (c *Client) handleESearch() (err error)
@@ -118,3 +125,18 @@ var _ *imapwire.Encoder
 //@ func writeSearchKey(enc *imapwire.Encoder, criteria *imap.SearchCriteria)
 //@   props C18:callsite
 //@   callsite Encoder.Quoted(e *imapwire.Encoder, q string) requires imapwire.ValidQuotedSpec(e.QuotedUTF8, q)
+
+//@ pure
+func isBytesBuffer(r io.Reader) bool {
+	_, ok := r.(*bytes.Buffer)
+	return ok
+}
+
+// NewStartTLS hands out a client only after the STARTTLS exchange succeeded
+// and the connection state was checked (a PREAUTH greeting is refused).
+//
+//@ func NewStartTLS(conn net.Conn, options *Options) (result *Client, err error)
+//@   props C17:post,pre@call
+//@   ensures err == nil ==> __called("Client.startTLS") && !__failed("Client.startTLS") && __called("Client.State")
+//@   ensures err != nil ==> result == nil
+var _ net.Conn
